@@ -245,6 +245,22 @@ def run(ctx):
         else:
             ctx.traces_validated += 1
     ctx.ties.append({"name": "ets-grow (oracle + white-box density)", "cases": len(gcases), "disagreements": gbad})
+    ccases = [[ctx.seed * 100 + i, T, 6, how] for i, (T, how) in enumerate([(2, 0), (3, 1), (2, 2), (5, 0), (4, 1), (8, 0)] * ctx.scale(1, 5))]
+    ctx.rules.append("ets-clear (oracle only): the container (both ets_no_key and ets_key_per_instance) is emptied by clear() / copy assignment / move assignment from ONE thread after 2-8 other threads used it; "
+                     "they use it again: local(exists) reports false, the initialiser runs once per thread, no two threads share an element, size() and iteration see exactly those threads; 6 rounds, hand-shaken")
+
+    def clear_oracle(c, toks):
+        d0 = "enumerable_thread_specific used by %d threads, emptied by another thread with %s, used again" % (c[1], ["clear()", "copy assignment", "move assignment"][c[3]])
+        if not toks or toks[0].startswith("CRASH") or toks[-1] == "HANG":
+            return ("ets-clear-hang-or-crash", d0)
+        d = {toks[i]: int(toks[i + 1]) for i in range(0, len(toks) - 1, 2)}
+        msg = {"STALE": "local(exists) reported an existing element after the container was emptied (or the element moved between two accesses)", "SHARED": "two threads share one element",
+               "INITS": "the initialiser did not run exactly once per thread and round", "SIZE": "size() / iteration do not see exactly the threads that accessed"}
+        for k, m_ in msg.items():
+            if d.get(k):
+                return ("ets-clear-" + k.lower(), "%s: %s (%d)" % (d0, m_, d[k]))
+        return None
+    oracle_tie(ctx, "ets-clear", exe, ["etsclear"], ccases, clear_oracle, bucket=lambda c: "ets-clear how=%d" % c[3], timeout=300)
 
 
 def replay(ctx, rep):
